@@ -12,7 +12,7 @@ pub fn corpus() -> Vec<&'static str> {
     vec!["a", "(a b c)", "(a . b)", "[a . b]", "[a b]", "(a [b . c] d)", "first (x [1 2 . 3] y) last", "(a . (b c))", "(a . #nil)", "(1 2 . #nil)", "(a . ())",
          "#(1 2 #(3))", "#u8(1 2 3)", "'a", "'(a . b)", "`(a ,b ,@c)", "(a . 'b)", "(a . `(b))", "((a . b) . (c . d))", "(.a .b)", "(a .b)", "\"s\" #\\c 1.5 -3 #t #f #nil nil t",
          "#:k :k k:", "()", "(())", "[ ]", "#()", "(a", "(a . b c)", "(a . )", "( . a)", "(a]", "[a)", "#(1", "'", "(a . b", "1 2 (3 4", "a ) b", "#u8(1 300)",
-         "(a b . c d)", "((((a))))", "(nil . nil)", "(t . t)", "x ; c\n y", "#(a . b)", "[a . b)", "(a . b]", "'[a . b]", "#([a . b])"]
+         "(a b . c d)", "((((a))))", "(nil . nil)", "(t . t)", "x ; c\n y", "#(a . b)", "[a . b)", "(a . b]", "'[a . b]", "#([a . b])", "(1 #z) 2", "#(1 #z) 2", "(a . ())", "'a '(1 2)", "(define x '(1 2))", "#('a)", "(a . (b . ()))"]
 }
 pub fn optsets() -> Vec<Options> {
     vec![Options::default(), Options::new(), Options::elisp(), Options::new().with_brackets(Brackets::Vector),
@@ -22,6 +22,7 @@ pub fn optsets() -> Vec<Options> {
 fn cases(_ob: &str) -> Vec<String> {
     let mut out = vec![];
     for ci in 0..corpus().len() { for oi in 0..optsets().len() { out.push(format!("api:{}:{}", ci, oi)); out.push(format!("walk:{}:{}", ci, oi)); } }
+    for i in 0..deep_texts().len() { out.push(format!("deep:{}", i)); }
     out
 }
 
@@ -77,8 +78,18 @@ fn walk(r: Ref<'_>, v: &Value) -> Option<String> {
     None
 }
 
+fn deep_texts() -> Vec<String> {
+    vec![format!("{}a", "'".repeat(130)), format!("{}a", ",@".repeat(128)), format!("{}{}a{}", "(".repeat(100), "'".repeat(30), ")".repeat(100)),
+         format!("{}{}a{}", "#(".repeat(110), "`".repeat(20), ")".repeat(110)), format!("{}a", "'".repeat(120))]
+}
 fn check(case: &str) -> Option<String> {
     let p: Vec<&str> = case.split(':').collect();
+    if p[0] == "deep" {
+        let text = deep_texts().into_iter().nth(p.get(1)?.parse::<usize>().ok()?)?;
+        let v = drain(Parser::from_str(&text), 0);
+        for mode in 1..5 { let d = drain(Parser::from_str(&text), mode); if d != v { return Some(format!("{} quote/list levels: next_value loop ends with {:?}, iteration style {} with {:?}", text.len(), v.1, mode, d.1)); } }
+        return None;
+    }
     let text = *corpus().get(p.get(1)?.parse::<usize>().ok()?)?;
     let o = optsets().get(p.get(2)?.parse::<usize>().ok()?)?.clone();
     match p[0] {
